@@ -245,6 +245,17 @@ def run_loop(eng, s, fr, anchor, spec, idxname, body_guard, bind, n, after_exit)
     from .engine import PathEnd, Unsupported, _Break, _Continue, PyRaise
     is_for = body_guard is not None
     uname = eng.unit_short
+    # a loop whose body makes excursions: the class's rely/guarantee relation to the unit's entry state is carried
+    # across iterations as an (automatically added) loop invariant
+    from . import heapglue
+    if heapglue.writes_heap(s.body) and heapglue.simple_self_writes(eng, s.body, fr) is None:
+        selfv = fr.lookup('self')
+        if isinstance(selfv, V) and selfv.ty[0] == 'ref' and selfv.ty[1] in heapglue.KLASSES:
+            extra = [e for e in heapglue.KLASSES[selfv.ty[1]].rely.values() if e not in spec.inv]
+            if extra:
+                from .contracts import LoopSpec
+                spec = LoopSpec(index=spec.index, inv=list(spec.inv) + extra, decreases=spec.decreases,
+                                modifies=spec.modifies, elem=spec.elem, **spec.extra)
     pre = dict(fr.vars)
     pre['__yielded__'] = eng.st.yielded
     fr.loop_pre.append(pre)
